@@ -164,3 +164,12 @@ def run(res, facts, tier):
     from . import c01_scope
     c01_scope.run_rule(res, facts, tier)
     c01_scope.r6_params(res, facts)
+
+
+_run_c01_prev_avt = run
+
+
+def run(res, facts, tier):
+    _run_c01_prev_avt(res, facts, tier)
+    from . import c01_avt
+    c01_avt.run_rule(res, facts, tier)
